@@ -64,7 +64,7 @@ COMPONENTS = {
     "model": ["dict model per handle and per batch", "RefMPT for the canonical root and the live node set"],
 }
 ASSUMPTIONS = [
-    "the outer trie is not mutated while its own batch is open (C05 defines such writes to be overwritten)",
+    "the outer trie is written while its own batch is open only in blocks of non-pruning tries that then exit normally (C05 defines such writes to be overwritten); what an aborted block leaves after such a write is not judged",
     "commit write failures are injected for non-pruning tries only, as the statement says",
     "whether the exception object is re-raised unchanged is not part of the statement and is not judged",
     "a reference-count table handed to the constructor is kept up to date in place (squash_changes documents this), so a caller may keep it and hand it to the handle it re-opens",
